@@ -10,6 +10,8 @@
 // pipeline whose own maintenance goroutine does the rounds (logical time =
 // wake-ups of that goroutine); Part A.conc pushes one record set through In
 // from 2..8 goroutines and compares with the sequential run and the reference.
+// Part B.fold (fold.go) is Part B's sequential clause with exceptions, records
+// and source names that carry non-ASCII letters in varying case.
 // See NOTES.md.
 package main
 
@@ -66,6 +68,10 @@ func childMain(raw json.RawMessage, io *core.ChildIO) (any, error) {
 			runLCase(genLCase(r, i), col, i)
 		case "Aconc":
 			runKCase(genKCase(r), col, i)
+		case "Bfold":
+			runBFold(genFCase(r), col, i)
+		case "Bfoldlen":
+			runBFoldLen(genLCaseLen(r), col, i)
 		}
 		if col.HarnessError != "" {
 			col.HarnessError = fmt.Sprintf("%s case %d: %s", in.Part, i, col.HarnessError)
@@ -83,6 +89,8 @@ func main() {
 func run(c *core.Ctx) {
 	c.SetRule("Part A: one case = one real pipeline (decoder json|raw|cri, pool kind, max_event_size derived from a pivot record, cut-off on/off, mark field, antispam off/threshold/exceptions/rules, source_name_meta_field, saved offsets; sources distinct, or several source ids under one source name, or one id under changing names) fed 20-60 records (lengths max-1..max+2 with/without line feed, blank-tailed and garbage-tailed JSON, multi-byte/escape/control/invalid-UTF-8 text, empty and broken records) through a reused input buffer; fingerprint = decoder x record shape x cut x line feed x mark x meta x length relative to the limit, counted only for delivered events that compared equal; plus per antispam case sources mode x number of antispam keys x threshold x bucketed spam refusals / records of name-sharing ids / records accepted while a namesake is banned. " +
 		"Part B: one case = one Antispammer with a generated configuration and a history of IsSpam calls and explicit Maintenance() rounds (bursts around the threshold, silences of unbanIterations-1..+2 rounds, trickles, interleaved sources, event-time gaps, new-source flags), or one concurrent burst; fingerprint = family x threshold x unbanIterations x bucketed numbers of bans/unbans/probes after silence/residue re-bans/new-source/gap/free/blocked records. " +
+		"Part B.fold: one case = one Antispammer with 1-3 exceptions (prefix|contains|suffix, case_insensitive on/off, invert on/off, and/or, on the record or on the source name) whose values carry non-ASCII letters (Cyrillic, Latin with diacritics, Greek, Armenian, fullwidth, Deseret, Glagolitic: 2-, 3- and 4-byte letters with a 1:1 case pair of equal length), and a history that bans a source and then shows it every text of the case (the values in the config's spelling, upper, lower, title, mixed, one letter flipped, only ASCII flipped, one letter replaced / missing; at the start / middle / end / alone) with maintenance rounds in between; fingerprint = shape x threshold x unbanIterations x modes x numbers of case-insensitive / inverted / source-name rules x bucketed bans / protected / refused records. " +
+		"Part B.foldlen: Part B.fold's drive with the letters it keeps out - letters whose lower-case form has another UTF-8 length (U+0130, U+212A, U+212B, U+1E9E, U+023A, ...) - in exception values and record texts (prefix|suffix mostly, contains, case_insensitive mostly); a case refuted by the reference is replayed against the hypothesis 'size check and cut before lower-casing' and carries one fixed signature if that explains every answer; fingerprint = shape x threshold x unbanIterations x bucketed records on which hypothesis and documents differ / protected records x refuted x explained. " +
 		"Part A.live: one case = one started pipeline with an antispam maintenance interval of 1-2 ms (decoder, threshold, quiet-phase mode silent|self-spam|other-spam|blocked-traffic|size-refused|heartbeat, early probe, extra rounds): ban a source, let unbanIterations+1 or more complete rounds of the pipeline's own maintenance goroutine pass in which nothing is admitted, probe; fingerprint = mode x decoder x threshold x interval x early probe x ban order x rounds. " +
 		"Part A.conc: one case = one set of tagged records (oversize and in-limit mixed, decoder, pool, capacity, max_event_size, cut-off, mark) pushed through In sequentially and from G=2..8 goroutines with own buffers and source ids; fingerprint = decoder x record shape x cut x line feed x mark x meta x length relative to the limit, and decoder x G x capacity x max_event_size x pool.")
 	c.Assume("pipeline/README.md, pipeline/antispam/README.md and cfg/matchrule/README.md are the specification; where they leave a choice every reading is accepted (see NOTES.md)")
@@ -124,6 +132,8 @@ func run(c *core.Ctx) {
 	split("Bconc", c.N(6400, 144000), 200)
 	split("Alive", c.N(960, 12800), 40)
 	split("Aconc", c.N(800, 16000), 50)
+	split("Bfold", c.N(16000, 360000), 1000)
+	split("Bfoldlen", c.N(600, 13500), 300)
 
 	results := make([]*collector, len(jobs))
 	core.ParallelFor(len(jobs), 16, func(j int) {
@@ -210,7 +220,7 @@ func run(c *core.Ctx) {
 	}
 
 	// a run that did not see the behaviours the property is about decides nothing
-	for _, k := range []string{
+	for _, k := range append(append(foldFloors(), foldLenFloors()...),
 		"A accepted", "A refused", "A refused as spam", "A class empty record", "A class oversize, no cut-off",
 		"A class decodable (oversize, cut)", "A class decodable (within limit)", "A class already committed",
 		"A json: cut events delivered intact (prefix + mark)", "A raw: cut events delivered intact (prefix + mark)", "A cri: cut events delivered intact (prefix + mark)",
@@ -231,8 +241,12 @@ func run(c *core.Ctx) {
 		"A.conc json: cut events equal to the sequential run and to the prefix of their own record",
 		"A.conc raw: cut events equal to the sequential run and to the prefix of their own record",
 		"A.conc cri: cut events equal to the sequential run and to the prefix of their own record",
-	} {
-		if len(only) > 0 && !only[map[string]string{"A ": "A", "B.s": "Bseq", "B.c": "Bconc", "A.l": "Alive", "A.c": "Aconc"}[k[:3]]] {
+	) {
+		part := map[string]string{"A ": "A", "B.s": "Bseq", "B.c": "Bconc", "A.l": "Alive", "A.c": "Aconc", "B.f": "Bfold"}[k[:3]]
+		if strings.HasPrefix(k, "B.foldlen") {
+			part = "Bfoldlen"
+		}
+		if len(only) > 0 && !only[part] {
 			continue
 		}
 		if c.Counter(k) == 0 {
